@@ -24,12 +24,18 @@ type Engine struct {
 	cs        *Contracts
 	pkgShort  [][2]string // (path+".", short+".") sorted by length desc
 	stableNN  map[string]bool
+	known     KnownFile
 	modPkgSet map[*types.Package]bool
 }
+
+var pkgNames = map[string]string{}
 
 func shortPkgDot(path string) string {
 	if path == modPath {
 		return ""
+	}
+	if n, ok := pkgNames[path]; ok {
+		return n + "."
 	}
 	return shortPkg(path) + "."
 }
@@ -61,7 +67,12 @@ func loadEngine(repo string, verifDir string) (*Engine, error) {
 		path := p.Pkg.Path()
 		if !seen[path] {
 			seen[path] = true
-			e.pkgShort = append(e.pkgShort, [2]string{path + ".", shortPkgDot(path)})
+			short := p.Pkg.Name() + "."
+			if path == modPath {
+				short = ""
+			}
+			pkgNames[path] = p.Pkg.Name()
+			e.pkgShort = append(e.pkgShort, [2]string{path + ".", short})
 		}
 	}
 	sort.Slice(e.pkgShort, func(i, j int) bool { return len(e.pkgShort[i][0]) > len(e.pkgShort[j][0]) })
@@ -99,6 +110,17 @@ func loadEngine(repo string, verifDir string) (*Engine, error) {
 	}
 	for _, fc := range e.cs.Funcs {
 		fc.computeProps()
+	}
+	e.known = loadKnown()
+	for i := range e.known.Findings {
+		f := &e.known.Findings[i]
+		if f.Region != "" {
+			ex, err := parseExpr(f.Region)
+			if err != nil {
+				return nil, fmt.Errorf("known_findings.json: region of %s: %v", f.Obligation, err)
+			}
+			f.regionExpr = ex
+		}
 	}
 	return e, nil
 }
